@@ -5,11 +5,18 @@ extern "C" {
 }
 #undef DEFAULT
 #include "intent.hpp"
+#include "fault/wrap.h"
+extern "C" struct alw_ctl alw __attribute__((weak));
 #include <memory>
 #include <cerrno>
 #include <cstring>
 
 namespace al {
+
+// Heap memory has no defined content: in the fault-injectable build every block the library mallocs is pre-filled with a
+// byte chosen here (0x00, 0xff, 0x55, 0xaa, ... by selector), so that a field the library forgets to initialise takes
+// different values from case to case (and between the two instances a differential check compares).
+static inline void heap_fill(unsigned sel) { if (&alw == nullptr) return; static const unsigned char F[] = {0x00, 0xff, 0x55, 0xaa, 0x01, 0xfe, 0x80, 0x7f}; alw.fill_on = 1; alw.fill = F[sel % 8]; }
 
 // 0 STRICT, 1 NASM, 2 SMART coincide with enum asm_opt.  `path` selects one of several documented, equivalent ways of
 // reaching the same option state (C12 decides that they are equivalent; using them everywhere makes every other check
@@ -72,8 +79,9 @@ static inline Result assemble(const std::string &text, int combo, int n = 256, i
   Result r;
   std::unique_ptr<uint8_t[]> buf(new uint8_t[n]);
   memset(buf.get(), fill, n);
-  assemblyline_t a = asm_create_instance(buf.get(), n);
   unsigned h = 2166136261u; for (unsigned char ch : text) h = (h ^ ch) * 16777619u;
+  heap_fill(h >> 21);
+  assemblyline_t a = asm_create_instance(buf.get(), n);
   if ((h >> 3) % 8 == 5) { prelife(a, h, spec::combo_opts(combo)); memset(buf.get(), fill, n); }
   else apply_opts(a, spec::combo_opts(combo), h >> 7);
   asm_set_offset(a, start);
